@@ -58,7 +58,18 @@ def is_solution(cnf, assignment):
     return True
 
 def solve_cnf(cnf, *, debug=False):
-    cnf = copy(cnf)  # avoid modifying the input
+    # Avoid modifying the input. Repeated literals are removed from each
+    # clause: unit propagation counts unassigned literals, so a clause such
+    # as x | x would never be recognised as unit and the search would repeat
+    # the same conflict forever.
+    def remove_repeated(clause):
+        res = []
+        for lit in clause:
+            if lit not in res:
+                res.append(lit)
+        return res
+
+    cnf = [remove_repeated(clause) for clause in cnf]
     assigns = dict()
     level = 0
     proofs = dict()
